@@ -11,6 +11,7 @@ var (
 	ErrDataFileNotFound       = errors.New("datafile file is not found")
 	ErrDataDirectoryCorrupted = errors.New("the database directory maybe corrupted")
 	ErrDBClosed               = errors.New("the database is closed")
+	ErrMergeDirIsDatabase     = errors.New("the merge directory is the data directory of another database")
 	ErrBatchCommitted         = errors.New("the batch is committed")
 	ErrBatchRollbacked        = errors.New("the batch is rollbacked")
 	ErrMergeIsProgress        = errors.New("merge is in progress, try again later")
